@@ -207,6 +207,30 @@ func judgeFinalizer(c *vs.Case, e *Env, t *SyncTrace, pre map[string]any, faultF
 			want[ObjID(e.NormalizeDesired(k.(map[string]any)))] = true
 		}
 		obs, _ := calls[0].Request[key].(map[string]any)
+		// ... children the answer asks for and that do not exist (someone deleted them) are created again
+		for _, k := range kids {
+			km := e.NormalizeDesired(k.(map[string]any))
+			d := e.W.Sim.DefByKind(km["apiVersion"].(string), km["kind"].(string))
+			if d == nil {
+				continue
+			}
+			seen := false
+			for _, g := range obs {
+				for _, o := range g.(map[string]any) {
+					if ObjID(o.(map[string]any)) == ObjID(km) {
+						seen = true
+					}
+				}
+			}
+			if seen || FindIn(t.PreCache[d.Resource], km) != nil {
+				continue
+			}
+			ws := t.WritesOn(d.Resource, metaStr(km, "namespace"), metaStr(km, "name"))
+			if len(ws) == 0 {
+				return vs.Violf("C10/finalize-answer-not-applied", "the finalize hook asks for %s, which does not exist, but the sync did not create it", ObjID(km))
+			}
+			c.Class("finalize-answer-creates-child")
+		}
 		for _, g := range obs {
 			for _, o := range g.(map[string]any) {
 				om := o.(map[string]any)
@@ -310,7 +334,7 @@ func PropC10(c *vs.Case, f Factory, kind string) error {
 		steps = len(script) + c.Int(3)
 	}
 	for s := 0; s < steps; s++ {
-		op := c.Weighted(8, 2, 2, 1, 1, 1, 1)
+		op := c.Weighted(8, 2, 2, 1, 1, 1, 1, 1)
 		if s < len(script) {
 			op = script[s]
 			if op == 0 {
@@ -390,6 +414,14 @@ func PropC10(c *vs.Case, f Factory, kind string) error {
 				}
 			})
 			log = append(log, "template.v changed")
+		case 7: // someone deletes one of the parent's children
+			if owned := env.OwnedChildren(); len(owned) > 0 {
+				o := owned[c.Int(len(owned))]
+				d := env.W.Sim.DefByKind(o["apiVersion"].(string), o["kind"].(string))
+				env.W.Sim.Purge(d.Resource, metaStr(o, "namespace"), metaStr(o, "name"))
+				log = append(log, "child "+ObjID(o)+" deleted by someone")
+				c.Class("child-deleted-externally")
+			}
 		case 6: // an object that looks like an orphaned child of this parent appears (also while the parent is dying)
 			if scn.Cfg.Kind == "composite" && len(scn.Cfg.Children) > 0 {
 				d := env.W.Sim.Def(scn.Cfg.Children[0].Resource)
